@@ -102,6 +102,27 @@ CallNested(r, k, k2) ==
             /\ obs' = [inv |-> n, fresh |-> TRUE, out |-> "val", at |-> now, drain |-> <<inner.inv>>]
   /\ UNCHANGED <<conf, now, drained, rid, nrid, nren>>
 
+(* a SLOW computation: the clock advances by dt while the wrapped function runs (synchronous forms).  The lookup sees the
+   time of the call; the entry's life starts when the result is STORED - the time the computation took is not taken off
+   it (a result that took longer to compute than the expiration is still served once) *)
+CallSlow(r, k, dt) ==
+  /\ Nested /\ ~IsAsync /\ now + dt <= MaxT
+  /\ nops < MaxOps /\ nops' = nops + 1 /\ ~drained
+  /\ r \in Recv
+  /\ LET key == KeyOf(r, k) IN
+     /\ uses' = Append(uses, key)
+     /\ IF LRU!Hit(entries, key, now, Bug)
+          THEN LET i == LRU!Idx(entries, key) IN
+               /\ entries' = LRU!Touch(entries, key, Bug) /\ now' = now
+               /\ obs' = [inv |-> entries[i].inv, fresh |-> FALSE, out |-> invOut[entries[i].inv], at |-> now, drain |-> <<>>]
+               /\ UNCHANGED <<ninv, invKey, invAt, invOut>>
+          ELSE LET n == ninv + 1 IN
+               /\ ninv' = n /\ now' = now + dt
+               /\ invKey' = Append(invKey, key) /\ invAt' = Append(invAt, now + dt) /\ invOut' = Append(invOut, "val")
+               /\ entries' = LRU!Stored(entries, key, n, now + dt, expn, limit, Bug)
+               /\ obs' = [inv |-> n, fresh |-> TRUE, out |-> "val", at |-> now + dt, drain |-> <<>>]
+  /\ UNCHANGED <<conf, drained, rid, nrid, nren>>
+
 (* the instance in receiver slot r is discarded (garbage collected) and a NEW instance takes the slot: whatever the old
    one had cached is not the new one's - its entries linger in the table until evicted, but nothing may serve them *)
 Renew(r) ==
@@ -131,6 +152,7 @@ Drain == /\ ~drained /\ drained' = TRUE
 Next == (\E dt \in Steps : Advance(dt)) \/ Drain \/ (\E r \in Receivers : Renew(r))
         \/ (\E r \in Receivers \cup {0}, k \in Keys, o \in Outs : Call(r, k, o))
         \/ (\E r \in Receivers \cup {0}, k \in Keys, k2 \in Keys : CallNested(r, k, k2))
+        \/ (\E r \in Receivers \cup {0}, k \in Keys, dt \in Steps : CallSlow(r, k, dt))
 Spec == Init /\ [][Next]_vars
 
 -----------------------------------------------------------------------------
